@@ -81,11 +81,17 @@ def run(run):
                "Python stub files at run time, collections and comprehensions")
     run.trusted += ["rustc nightly MIR dump", "mirsym MIR semantics", "z3", "python3 (replay)"]
     run.bounds = {"paths": "all paths of each kernel with loops cut at their headers"}
-    for f in (C05.ob_operator_typing, C05.ob_method_parameters, C05.ob_access_direction, C05.ob_unify_type, C05.ob_call_parameters):
+    for f in (C05.ob_operator_typing, C05.ob_bitwise_typed, C05.ob_compound_assignment, C05.ob_method_parameters, C05.ob_access_direction, C05.ob_unify_type, C05.ob_call_parameters):
         try:
             f(run, mir, rp, fam)
         except Unsupported as e:
             run.ob(f.__name__[3:] + "-encoding", "E2", "kernel is encodable").inconclusive(f"unsupported construct: {e}")
+    try:
+        # a tuple / dict with a wrong component must not pass as a subtype (generic arguments are compared one by one, all of them)
+        from props import C20
+        C20.ob_generics(run, mir, rp, C20.family(rp))
+    except Unsupported as e:
+        run.ob("generics-encoding", "E2", "kernel is encodable").inconclusive(f"unsupported construct: {e}")
     for f in (C09.ob_lookup, C09.ob_flow):
         try:
             f(run, mir, rp, fam)
